@@ -381,6 +381,91 @@ pub fn run_prop<C, S>(
     rep.add(sub, merged);
 }
 
+/// Like `run_prop`, but one single-threaded proptest runner per *job* (e.g. per format), jobs
+/// being distributed over the thread pool. All jobs report into subcheck `sub`.
+pub fn run_prop_jobs<J, C, S>(
+    rep: &mut Report,
+    ctx: &Ctx,
+    sub: &str,
+    jobs: &[J],
+    cases_per_job: u64,
+    make_strategy: impl Fn(&J) -> S + Sync,
+    to_json: impl Fn(&J, &C) -> Value + Sync,
+    test: impl Fn(&J, &C, &mut Local) -> CaseResult + Sync,
+) where
+    J: Sync,
+    C: Debug + Clone,
+    S: Strategy<Value = C>,
+{
+    let results = run_workers(ctx.threads, jobs.len(), |w| {
+        let job = &jobs[w];
+        let seed = mix(ctx.seed, &[&ctx.property, sub, &ctx.config, "job", &w.to_string()]);
+        let mut seed_bytes = [0u8; 32];
+        for i in 0..4 {
+            seed_bytes[i * 8..(i + 1) * 8].copy_from_slice(&splitmix(seed.wrapping_add(i as u64)).to_le_bytes());
+        }
+        let rng = TestRng::from_seed(RngAlgorithm::ChaCha, &seed_bytes);
+        let config = Config {
+            cases: cases_per_job as u32,
+            failure_persistence: None,
+            max_shrink_iters: 3000,
+            max_local_rejects: 1_000_000,
+            max_global_rejects: 1_000_000,
+            verbose: 0,
+            ..Config::default()
+        };
+        let mut runner = TestRunner::new_with_rng(config, rng);
+        let mut l0 = Local::new();
+        l0.sample_cap = 1;
+        let local = RefCell::new(l0);
+        let strategy = make_strategy(job);
+        let res = runner.run(&strategy, |case| {
+            let mut l = local.borrow_mut();
+            let r = match guard(|| test(job, &case, &mut l)) {
+                Ok(r) => r,
+                Err(p) => Err(Fail::new(format!("harness/oracle panic (not a library verdict): {p}"))),
+            };
+            match r {
+                Ok(()) => Ok(()),
+                Err(f) => {
+                    if let Some(m) = f.matcher {
+                        if ctx.known_active(m) {
+                            if !l.frozen {
+                                *l.excluded.entry(m.to_string()).or_insert(0) += 1;
+                            }
+                            return Ok(());
+                        }
+                    }
+                    l.frozen = true;
+                    Err(TestCaseError::fail(f.message))
+                },
+            }
+        });
+        let mut viol = None;
+        if let Err(e) = res {
+            match e {
+                TestError::Fail(reason, value) => {
+                    viol = Some((reason.message().to_string(), to_json(job, &value)));
+                },
+                TestError::Abort(reason) => {
+                    viol = Some((format!("proptest aborted: {}", reason.message()), json!(null)));
+                },
+            }
+        }
+        (local.into_inner(), viol)
+    });
+    let mut merged = Local::new();
+    for (l, v) in results {
+        merged.merge(l);
+        if let Some((msg, case)) = v {
+            if rep.violations.iter().filter(|x| x.subcheck == sub).count() < 12 {
+                rep.violation(sub, msg, case);
+            }
+        }
+    }
+    rep.add(sub, merged);
+}
+
 /// Drive an exhaustive / stratified enumeration: `n_chunks` chunks processed by logical workers.
 /// `test_chunk(chunk_index, &mut Local, &mut Vec<(String, Value)>)` pushes violations itself.
 pub fn run_enum(
